@@ -50,7 +50,14 @@ fn gen_spec(g: &mut Rng, id: &str, tier: Tier) -> RespSpec {
         6 => *g.pick(&[400u16, 404, 418, 451, 499]),
         7 => *g.pick(&[500u16, 503, 599]),
         8 => *g.pick(&[299u16, 350, 600, 777, 999]),
-        _ => *g.pick(&[201u16, 206, 301, 302]),
+        // any other status: the neighbours of the body-less ones first, then the whole range
+        _ => {
+            if g.chance(1, 2) {
+                *g.pick(&[201u16, 202, 203, 205, 206, 207, 226, 300, 301, 302, 303, 305, 307, 308])
+            } else {
+                200 + g.below(400) as u16
+            }
+        }
     };
     let lens: &[usize] = if tier == Tier::Thorough {
         &[0, 1, 2, 100, 1023, 1024, 1025, 8191, 8192, 8193, 16384, 20000, 32767, 32768, 32769, 40000, 70000]
@@ -179,7 +186,7 @@ impl Campaign for C04c {
         "C04"
     }
     fn rule(&self) -> &'static str {
-        "seeded scenarios: a request (HTTP/1.0 keep-alive or 1.1, HEAD or GET, TE header variants) answered with a generated response (status classes 1xx/200/204/304/4xx/5xx/unregistered, body 0..70000 bytes around the 8192 chunk size and the 32768 default threshold, length declared or not, thresholds {0,1,len-1,len,len+1,default,usize::MAX}, constructors new/from_data/from_string/empty, body readers handing out 1 byte .. whole), followed by a marker request; bytes leave through the simulated transport with short writes and small send windows; the same response is also serialised with the public raw_print into a writer that accepts seeded random prefixes; non-trivial = the body is non-empty or the status forbids a body; distinct = interleaving fingerprint"
+        "seeded scenarios: a request (HTTP/1.0 keep-alive or 1.1, HEAD or GET, TE header variants) answered with a generated response (status classes 1xx/200/204/304/4xx/5xx/unregistered, the neighbours of the body-less codes such as 203/205/303/305 and uniformly drawn codes 200..599, body 0..70000 bytes around the 8192 chunk size and the 32768 default threshold, length declared or not, thresholds {0,1,len-1,len,len+1,default,usize::MAX}, constructors new/from_data/from_string/empty, body readers handing out 1 byte .. whole), followed by a marker request; bytes leave through the simulated transport with short writes and small send windows; the same response is also serialised with the public raw_print into a writer that accepts seeded random prefixes; non-trivial = the body is non-empty or the status forbids a body; distinct = interleaving fingerprint"
     }
     fn runs(&self, tier: Tier) -> u64 {
         match tier {
@@ -305,7 +312,7 @@ impl Campaign for C19c {
         "C19"
     }
     fn rule(&self) -> &'static str {
-        "seeded scenarios: 1-2 requests on one connection, each answered with a response built by a generated constructor (from_string with multi-byte UTF-8, from_data, empty, new; optionally with_data replacing the body) and a generated header list (ordinary names with duplicates, the protected names Connection/Trailer/Transfer-Encoding/Upgrade, Content-Length, several Content-Types, Date and Server supplied or not; any letter case; added through the constructor, add_header or with_header), under a virtual wall clock started at a generated date (1970 .. 9998, leap days, minute/day/year roll-overs) and jumped between the two responses; the Date on the wire must be the IMF-fixdate of the virtual instant of the respond call; non-trivial = a protected/special name was supplied or the clock was jumped; distinct = interleaving fingerprint"
+        "seeded scenarios: 1-4 requests on one connection, each dropped unanswered or by a panicking handler (one in eight: the automatic response must carry one Date and one Server like any other) or answered with a response built by a generated constructor (from_string with multi-byte UTF-8, from_data, empty, new; optionally with_data replacing the body) and a generated header list (ordinary names with duplicates, the protected names Connection/Trailer/Transfer-Encoding/Upgrade, Content-Length, several Content-Types, Date and Server supplied or not; any letter case; added through the constructor, add_header or with_header), under a virtual wall clock started at a generated date (1970 .. 9998, leap days, minute/day/year roll-overs) and jumped between the responses; the Date on the wire must be the IMF-fixdate of the virtual instant of the respond call; non-trivial = a protected/special name was supplied or the clock was jumped; distinct = interleaving fingerprint"
     }
     fn runs(&self, tier: Tier) -> u64 {
         match tier {
@@ -332,6 +339,7 @@ impl Campaign for C19c {
         let n = g.usize(1, 4);
         let mut steps = vec![];
         let mut special = false;
+        let mut panics = false;
         let mut wall_now = sc.knobs.wall_base_secs as i64;
         for r in 0..n {
             let id = format!("c0r{}", r);
@@ -415,10 +423,20 @@ impl Campaign for C19c {
                 let later = spec.headers.iter().filter(|h| !(h.2 == 0 && spec.ctor == Ctor::New)).count();
                 spec.replace_at = if g.chance(1, 2) { Some(g.usize(0, later)) } else { None };
             }
-            sc.programs.insert(id, Program { delay: 0, after: vec![], body: BodyPlan::None, delay2: 0, finish: Finish::Respond(spec) });
+            // one request in eight is not answered by the application at all: the automatic
+            // response (request dropped, or its handler panicking) is a response like any other
+            let finish = match g.below(16) {
+                0 => Finish::Drop,
+                1 => {
+                    panics = true;
+                    Finish::Panic
+                }
+                _ => Finish::Respond(spec),
+            };
+            sc.programs.insert(id, Program { delay: 0, after: vec![], body: BodyPlan::None, delay2: 0, finish });
         }
         sc.conns.push(ConnScript { steps, ..Default::default() });
-        sc.receivers = loop_receivers(1, Dispatch::Inline);
+        sc.receivers = loop_receivers(1, if panics { Dispatch::Spawn } else { Dispatch::Inline });
         sc.note = format!("C19 index {} special={}", index, special);
         sc
     }
@@ -432,15 +450,39 @@ impl Campaign for C19c {
         let reqs = conn_requests(sc, 0);
         for (k, r) in reqs.iter().enumerate() {
             let id = r.id.clone().unwrap_or_default();
-            let spec = match sc.programs.get(&id).map(|p| &p.finish) {
-                Some(Finish::Respond(s)) => s,
-                _ => continue,
-            };
             let m = match p.msgs.get(k) {
                 Some(m) if m.complete => m,
                 _ => {
                     v.inconclusive = Some(format!("response #{} missing", k));
                     break;
+                }
+            };
+            let spec = match sc.programs.get(&id).map(|p| &p.finish) {
+                Some(Finish::Respond(s)) => s,
+                _ => {
+                    // the automatic response for a request the application dropped: one Date
+                    // (the virtual instant of the drop) and one Server header
+                    let is = |n: &str, x: &str| n.eq_ignore_ascii_case(x);
+                    let dates: Vec<&(String, String)> = m.headers.iter().filter(|h| is(&h.0, "Date")).collect();
+                    let servers = m.headers.iter().filter(|h| is(&h.0, "Server")).count();
+                    let wall = out.obs.events.iter().find_map(|e| match e {
+                        Ev::FinishStart { id: i, wall, .. } if *i == id => Some(*wall),
+                        _ => None,
+                    });
+                    let mut bad: Option<(&str, String)> = None;
+                    if dates.len() != 1 {
+                        bad = Some(("C19.date", format!("{} Date headers", dates.len())));
+                    } else if servers != 1 {
+                        bad = Some(("C19.server", format!("{} Server headers", servers)));
+                    } else if let (Some(w), false) = (wall, sc.knobs.racy_time) {
+                        if dates[0].1 != imf_fixdate(w) {
+                            bad = Some(("C19.date", format!("Date on the wire {:?}, the virtual wall clock when the request was dropped reads {:?}", dates[0].1, imf_fixdate(w))));
+                        }
+                    }
+                    if let Some((clause, text)) = bad {
+                        v.violations.push(Violation { clause: clause.into(), signature: "automatic response for a dropped request".into(), detail: format!("{} response #{} (status {}, request dropped or its handler panicked): {}; headers on the wire: {:?}", sc.note, k, m.status, text, m.headers) });
+                    }
+                    continue;
                 }
             };
             let mut push = |clause: &str, sig: &str, text: String| {
